@@ -1,12 +1,13 @@
 import OZ.DrvUtil
 import OZ.Drv.FungibleIO
-import OZ.Model.Vault
+import OZ.Model.VaultMon
 /-
 Driver for C05 (vault share accounting). Model = OZ.Vault (share token + asset token +
 conversions through the C12 mul-div model).
 
-The monitor never calls the model: it evaluates the property's conclusion on the
-IMPLEMENTATION's observation lines with exact integer arithmetic:
+The monitor (OZ/Model/VaultMon.lean: `checkConstruct`, `checkCore`; this file only PARSES the op
+line and the observation line and calls them) never calls the model: it evaluates the property's
+conclusion on the IMPLEMENTATION's observation lines with exact integer arithmetic:
   * every preview / conversion / max_* answer equals the exactly rounded rational formula on
     the observed (total_assets, total_supply) or is an error exactly when it does not fit;
   * an accepted deposit / mint / withdraw / redeem returns what its preview (observed
@@ -16,12 +17,18 @@ IMPLEMENTATION's observation lines with exact integer arithmetic:
   * the rate (A+1)/(S+V) never decreases over any accepted operation;
   * share supply = Σ share balances, no negative balance, failed calls change nothing,
     replaying the vault contract's events from genesis reproduces every share balance.
+
+OZ/Props/C05Mon.lean proves the monitor core SOUND (silent on every model trace). The model
+observation used there (`OZ.Vault.Mon.stepObs` / `obsConstruct`) is the data `stepLine` below
+prints, read back by `parseObs`. NOT covered by that theorem (string level, trusted): `parseObs`,
+`parseLine`, `parseEv`, the printing in `stepLine`, and the two alarms raised here for lines that
+do not parse: `site=vault.parse unparsable observation` (`check`) — `site=vault.parse bad op line`
+is part of the core.
 -/
 namespace OZ.Drv.C05
 open OZ.Drv OZ.Vault OZ.Host
+open OZ.Vault.Mon (N VAULT Obs Ev QA Kind VKind Line Mon checkCore checkConstruct monInit)
 
-def N : Nat := 5
-def VAULT : Nat := 4
 def MAX_TTL : Nat := 200000
 
 /-! ### model side -/
@@ -98,12 +105,7 @@ def parseOp (ws : List String) : Option (List Nat × Op) :=
       else none
   | _ => none
 
-def isVaultOp : Op → Bool
-  | .deposit .. => true
-  | .mint .. => true
-  | .withdraw .. => true
-  | .redeem .. => true
-  | _ => false
+open OZ.Vault.Mon (isVaultOp)
 
 def stepLine (m : M) (line : String) : M × String :=
   let ws := words line
@@ -135,23 +137,7 @@ def stepLine (m : M) (line : String) : M × String :=
           s!"ok ret={r} {showState s'} now={s'.sh.now} ev={showEvents s s'} dem={dem}")
       | .error _ => (m, s!"err ret=- {showState s} now={s.sh.now} ev=- dem=-")
 
-/-! ### monitor side: observations of the implementation -/
-
-structure Obs where
-  ok : Bool
-  ret : Option Int
-  A : Int
-  S : Int
-  sb : List Int
-  ab : List Int
-  asup : Int
-  sal : List (Nat × Nat × Int)
-  aal : List (Nat × Nat × Int)
-  now : Nat
-  evs : List (List String)
-  dem : List Nat
-  q : List (String × Option Int)      -- answers of a `query` op (`none` = the call failed)
-  deriving Repr
+/-! ### monitor side: parsing only (the checks are OZ.Vault.Mon.checkConstruct / checkCore) -/
 
 def parseAllow (s : String) : List (Nat × Nat × Int) :=
   if s = "-" then [] else (s.splitOn ";").filterMap (fun t =>
@@ -159,7 +145,19 @@ def parseAllow (s : String) : List (Nat × Nat × Int) :=
     | [o, sp, a] => do pure ((← o.toNat?), (← sp.toNat?), (← a.toInt?))
     | _ => none)
 
-def qKeys : List String := ["pd", "pm", "pw", "pr", "cs", "ca", "mw", "mr", "md", "mm"]
+/-- a printed event, split at `:`; only the share-moving events of the vault contract's own stream
+are kept (asset-token events carry the prefix `a.`) -/
+def parseEv (ev : List String) : Option Ev :=
+  match ev with
+  | ["dep", o, f, r, a, sh] => some (.dep o.toNat? f.toNat? r.toNat? a.toInt? sh.toInt?)
+  | ["wd", o, r, ow, a, sh] => some (.wd o.toNat? r.toNat? ow.toNat? a.toInt? sh.toInt?)
+  | ["mint", t, a] => some (.mint t.toNat? a.toInt?)
+  | ["burn", f, a] => some (.burn f.toNat? a.toInt?)
+  | ["transfer", f, t, a] => some (.transfer f.toNat? t.toNat? a.toInt?)
+  | _ => none
+
+/-- answer of a `query` key: absent / `e` (the call failed) / a number -/
+def qv (rest : List String) (k : String) : Option (Option Int) := (kv? rest k).map (·.toInt?)
 
 def parseObs (line : String) : Option Obs :=
   match words line with
@@ -169,217 +167,49 @@ def parseObs (line : String) : Option Obs :=
     let asup ← kvInt? rest "asup"
     let now ← kvNat? rest "now"
     let evS := (kv? rest "ev").getD "-"
-    let evs := if evS = "-" then [] else (evS.splitOn ";").map (·.splitOn ":")
-    let q := qKeys.filterMap (fun k => (kv? rest k).map (fun v => (k, v.toInt?)))
+    let evsRaw := if evS = "-" then [] else (evS.splitOn ";").map (·.splitOn ":")
+    let q : QA := { pd := qv rest "pd", pm := qv rest "pm", pw := qv rest "pw", pr := qv rest "pr",
+                    cs := qv rest "cs", ca := qv rest "ca", mw := qv rest "mw", mr := qv rest "mr",
+                    md := qv rest "md", mm := qv rest "mm" }
     pure { ok := tag = "ok", ret := kvInt? rest "ret", A, S,
            sb := intList ((kv? rest "sb").getD "-"), ab := intList ((kv? rest "ab").getD "-"),
            asup, sal := parseAllow ((kv? rest "sal").getD "-"), aal := parseAllow ((kv? rest "aal").getD "-"),
-           now, evs, dem := natList ((kv? rest "dem").getD "-"), q }
+           now, evs := evsRaw.filterMap parseEv, evsRaw, dem := natList ((kv? rest "dem").getD "-"), q }
   | _ => none
 
-def allowOf (l : List (Nat × Nat × Int)) (ow sp : Nat) : Int :=
-  match l.find? (fun (a, b, _) => a = ow ∧ b = sp) with
-  | some (_, _, v) => v
-  | none => 0
+def parseKind (kind : String) : Kind :=
+  if kind = "query" then .query
+  else if kind = "deposit" then .vault .deposit
+  else if kind = "mint" then .vault .mint
+  else if kind = "withdraw" then .vault .withdraw
+  else if kind = "redeem" then .vault .redeem
+  else if kind = "advance" then .advance
+  else if kind.startsWith "s_" then .shareTok kind
+  else if kind.startsWith "a_" then .assetTok kind
+  else .other
 
-def Obs.qv (o : Obs) (k : String) : Option (Option Int) := (o.q.find? (·.1 = k)).map (·.2)
-
-def I128MAX : Int := 170141183460469231731687303715884105727
-
-/-- the property's formula: `x·y/d` rounded down (`up = false`) or up, `none` = must fail -/
-def specConv (x y d : Int) (up : Bool) : Option Int :=
-  if x < 0 then none
-  else if x = 0 then some 0
-  else if y > I128MAX ∨ d > I128MAX ∨ d ≤ 0 then none
-  else
-    let n := x * y
-    let q := if up then (n + d - 1) / d else n / d
-    if q > I128MAX then none else some q
-
-def addAt (l : List Int) (i : Nat) (d : Int) : List Int := l.mapIdx (fun j x => if j = i then x + d else x)
-
-/-- all pairs of the universe agree between two allowance tables, except `(ow, sp)` which
-must have moved by exactly `-d` -/
-def allowMoved (pre post : List (Nat × Nat × Int)) (chg : Option (Nat × Nat × Int)) : Bool :=
-  (List.range N).all (fun o => (List.range N).all (fun sp =>
-    let exp := match chg with
-      | some (ow, s, d) => if o = ow ∧ sp = s then allowOf pre o sp - d else allowOf pre o sp
-      | none => allowOf pre o sp
-    allowOf post o sp == exp))
-
-structure Mon where
-  offset : Nat
-  prev : Option Obs
-  lastQ : Option (Int × Nat × Obs)     -- x, who, the query's observation
-  replay : List Int                     -- share balances reconstructed from events
-
-def zeroObs : Obs :=
-  { ok := true, ret := none, A := 0, S := 0, sb := List.replicate N 0, ab := List.replicate N 0, asup := 0,
-    sal := [], aal := [], now := 0, evs := [], dem := [], q := [] }
-
-def replayEv (b : List Int) (ev : List String) : List Int :=
-  match ev with
-  | ["dep", _, _, r, _, sh] => match r.toNat?, sh.toInt? with | some r, some sh => addAt b r sh | _, _ => b
-  | ["wd", _, _, ow, _, sh] => match ow.toNat?, sh.toInt? with | some ow, some sh => addAt b ow (-sh) | _, _ => b
-  | ["mint", t, a] => match t.toNat?, a.toInt? with | some t, some a => addAt b t a | _, _ => b
-  | ["burn", f, a] => match f.toNat?, a.toInt? with | some f, some a => addAt b f (-a) | _, _ => b
-  | ["transfer", f, t, a] =>
-    match f.toNat?, t.toNat?, a.toInt? with
-    | some f, some t, some a => addAt (addAt b f (-a)) t a
-    | _, _, _ => b
-  | _ => b
-
-def first (l : List (Option String)) : Option String := l.findSome? id
-
-/-- checks of a `query` observation against the exact formulas on the observed state -/
-def checkQuery (V : Int) (x : Int) (who : Nat) (o : Obs) : Option String :=
-  let y := o.S + V
-  let d := o.A + 1
-  let bal := o.sb.getD who 0
-  let want : List (String × Option Int) :=
-    [("pd", specConv x y d false), ("pm", specConv x d y true), ("pw", specConv x y d true),
-     ("pr", specConv x d y false), ("cs", specConv x y d false), ("ca", specConv x d y false),
-     ("mw", specConv bal d y false), ("mr", some bal), ("md", some I128MAX), ("mm", some I128MAX)]
-  first (want.map (fun (k, w) =>
-    match o.qv k with
-    | none => some s!"site=vault.query.missing {k}"
-    | some got => if got = w then none else some s!"site=vault.convert.{k} x={x} A={o.A} S={o.S} V={V}: got {got} but the exactly rounded formula gives {w}"))
-
-def lt3 (a : List Nat) : Option (Nat × Nat × Nat) :=
-  match a with
-  | [x, y, z] => some (x, y, z)
-  | _ => none
-
-/-- checks of an accepted deposit / mint / withdraw / redeem -/
-def checkVaultOp (m : Mon) (kind : String) (x : Int) (r p op : Nat) (pre o : Obs) : Option String :=
-  let V : Int := 10 ^ m.offset
-  let y := pre.S + V
-  let d := pre.A + 1
-  match o.ret with
-  | none => some s!"site=vault.{kind}.ret no return value"
-  | some ret =>
-    -- 1. preview observed immediately before == returned amount
-    let qk := match kind with | "deposit" => "pd" | "mint" => "pm" | "withdraw" => "pw" | _ => "pr"
-    let pv : Option String := match m.lastQ with
-      | some (qx, _, qo) =>
-        if qx ≠ x then some s!"site=vault.{kind}.preview no preview for x={x}"
-        else match qo.qv qk with
-          | some (some v) => if v = ret then none else some s!"site=vault.{kind}.preview preview said {v}, operation returned {ret}"
-          | _ => some s!"site=vault.{kind}.preview preview failed but the operation returned {ret}"
-      | none => some s!"site=vault.{kind}.preview no preview observed"
-    -- 2. rounding direction by cross-multiplication (floor for what the user gets, ceil for what he pays)
-    let rnd : Option String := match kind with
-      | "deposit" => if ret * d ≤ x * y ∧ x * y < (ret + 1) * d then none
-          else some s!"site=vault.deposit.round shares={ret} is not floor({x}*{y}/{d})"
-      | "mint" => if (ret - 1) * y < x * d ∧ x * d ≤ ret * y then none
-          else some s!"site=vault.mint.round assets={ret} is not ceil({x}*{d}/{y})"
-      | "withdraw" => if (ret - 1) * d < x * y ∧ x * y ≤ ret * d then none
-          else some s!"site=vault.withdraw.round shares={ret} is not ceil({x}*{y}/{d})"
-      | _ => if ret * y ≤ x * d ∧ x * d < (ret + 1) * y then none
-          else some s!"site=vault.redeem.round assets={ret} is not floor({x}*{d}/{y})"
-    let neg : Option String := if x < 0 ∨ ret < 0 then some s!"site=vault.{kind}.negative x={x} ret={ret}" else none
-    -- 3. limits
-    let bal := pre.sb.getD p 0
-    let lim : Option String := match kind with
-      | "withdraw" => match specConv bal d y false with
-          | some mw => if x ≤ mw then none else some s!"site=vault.withdraw.max {x} > max_withdraw {mw}"
-          | none => some "site=vault.withdraw.max max_withdraw must fail"
-      | "redeem" => if x ≤ bal then none else some s!"site=vault.redeem.max {x} > max_redeem {bal}"
-      | _ => none
-    -- 4. exactly (assets, shares) moved between exactly the named parties and the vault
-    let inflow := kind = "deposit" ∨ kind = "mint"
-    let assets := if kind = "deposit" ∨ kind = "withdraw" then x else ret
-    let shares := if kind = "deposit" ∨ kind = "withdraw" then ret else x
-    let abExp := if inflow then addAt (addAt pre.ab p (-assets)) VAULT assets
-                 else addAt (addAt pre.ab VAULT (-assets)) r assets
-    let sbExp := if inflow then addAt pre.sb r shares else addAt pre.sb p (-shares)
-    let sExp := if inflow then pre.S + shares else pre.S - shares
-    let mv : Option String :=
-      if o.ab ≠ abExp then some s!"site=vault.{kind}.move asset balances {o.ab}, expected {abExp}"
-      else if o.sb ≠ sbExp then some s!"site=vault.{kind}.move share balances {o.sb}, expected {sbExp}"
-      else if o.S ≠ sExp then some s!"site=vault.{kind}.move share supply {o.S}, expected {sExp}"
-      else if o.A ≠ o.ab.getD VAULT 0 then some s!"site=vault.{kind}.move total_assets {o.A} is not the vault's asset balance"
-      else if o.asup ≠ pre.asup then some s!"site=vault.{kind}.move asset supply changed"
-      else none
-    -- 5. allowances: the operator of somebody else's funds spends exactly the amount
-    let al : Option String :=
-      if inflow then
-        if ¬ allowMoved pre.aal o.aal (if op ≠ p then some (p, op, assets) else none) then
-          some s!"site=vault.{kind}.allowance asset allowance not spent exactly"
-        else if ¬ allowMoved pre.sal o.sal none then some s!"site=vault.{kind}.allowance share allowance changed"
-        else none
-      else
-        if ¬ allowMoved pre.sal o.sal (if op ≠ p then some (p, op, shares) else none) then
-          some s!"site=vault.{kind}.allowance operator {op} != owner {p}: share allowance {allowOf pre.sal p op} -> {allowOf o.sal p op}, shares burned {shares}"
-        else if ¬ allowMoved pre.aal o.aal none then some s!"site=vault.{kind}.allowance asset allowance changed"
-        else none
-    -- 6. the event names the same parties and amounts, the operator authorized
-    let evName := if inflow then "dep" else "wd"
-    let evExp : List String := if inflow then [evName, toString op, toString p, toString r, toString assets, toString shares]
-                               else [evName, toString op, toString r, toString p, toString assets, toString shares]
-    let ev : Option String :=
-      if o.evs.contains evExp then none else some s!"site=vault.{kind}.event expected event {evExp}, got {o.evs}"
-    let au : Option String :=
-      if o.dem.contains op then none else some s!"site=vault.{kind}.auth operator {op} was not asked to authorize"
-    first [neg, pv, rnd, lim, mv, al, ev, au]
+/-- the fields of an op line the monitor reads -/
+def parseLine (ws : List String) (kind : String) : Line :=
+  { kind := parseKind kind, x := (kvInt? ws "x").getD 0, a := natList ((kv? ws "a").getD "-"),
+    who := (kvNat? ws "who").getD 0 }
 
 def check (m : Mon) (opl obs : String) : Mon × Option String :=
   let ws := words opl
   let kind := (ws.drop 1).head?.getD ""
   if kind = "construct" then
-    let off := (kvNat? ws "offset").getD 0
     let okc := (words obs).head? = some "ok"
-    let m' := { m with offset := off, prev := if okc then parseObs obs else none }
-    if okc ∧ off > 10 then (m', some s!"site=vault.offset vault constructed with decimals offset {off} > 10")
-    else (m', none)
+    checkConstruct m ((kvNat? ws "offset").getD 0) okc (parseObs obs)
   else
   match parseObs obs with
   | none => (m, some s!"site=vault.parse unparsable observation {obs}")
-  | some o =>
-    let prev := m.prev.getD zeroObs
-    let V : Int := 10 ^ m.offset
-    let x := (kvInt? ws "x").getD 0
-    let a := natList ((kv? ws "a").getD "-")
-    let replay' := o.evs.foldl replayEv m.replay
-    let lastQ' := if kind = "query" then some (x, (kvNat? ws "who").getD 0, o) else none
-    let m' : Mon := { m with prev := some o, replay := replay', lastQ := lastQ' }
-    let sameState := o.A = prev.A ∧ o.S = prev.S ∧ o.sb = prev.sb ∧ o.ab = prev.ab ∧ o.asup = prev.asup
-    let generic : Option String :=
-      if o.sb.sum ≠ o.S then some s!"site=vault.shares.sum total share supply={o.S} but share balances sum to {o.sb.sum}"
-      else if o.sb.any (· < 0) then some "site=vault.shares.sum a share balance is negative"
-      else if ¬ o.ok ∧ ¬ (sameState ∧ allowMoved prev.sal o.sal none ∧ allowMoved prev.aal o.aal none) then
-        some "site=vault.shares.rollback a failed call changed a balance, an allowance or a supply"
-      else if replay' ≠ o.sb then some s!"site=vault.shares.replay event replay gives {replay'} but share balances are {o.sb}"
-      else if o.A ≠ o.ab.getD VAULT 0 then some s!"site=vault.total_assets {o.A} is not the vault's asset balance"
-      else if o.ok ∧ (o.A + 1) * (prev.S + V) < (prev.A + 1) * (o.S + V) then
-        some s!"site=vault.rate rate decreased: (A,S) {prev.A},{prev.S} -> {o.A},{o.S} with V={V}"
-      else none
-    let specific : Option String :=
-      if ¬ o.ok then none
-      else if kind = "query" then
-        if ¬ sameState then some "site=vault.query.state a query changed the state"
-        else checkQuery V x ((kvNat? ws "who").getD 0) o
-      else if kind = "deposit" ∨ kind = "mint" ∨ kind = "withdraw" ∨ kind = "redeem" then
-        match lt3 a with
-        | some (r, p, op) => checkVaultOp m kind x r p op prev o
-        | none => some "site=vault.parse bad op line"
-      else if kind = "advance" then
-        if sameState then none else some "site=vault.advance balances changed"
-      else if kind.startsWith "s_" then
-        if o.S ≠ prev.S ∨ o.ab ≠ prev.ab ∨ o.A ≠ prev.A then some s!"site=vault.supply a share-token {kind} changed the share supply or an asset balance"
-        else none
-      else if kind.startsWith "a_" then
-        if o.S ≠ prev.S ∨ o.sb ≠ prev.sb then some s!"site=vault.supply an asset-token {kind} changed shares"
-        else none
-      else none
-    (m', first [generic, specific])
+  | some o => checkCore m (parseLine ws kind) o
 
 def machine : Machine where
   σ := M
   init := initM
   op := stepLine
   μ := Mon
-  minit := fun _ => { offset := 0, prev := none, lastQ := none, replay := List.replicate N 0 }
+  minit := fun _ => monInit
   mon := check
 
 end OZ.Drv.C05
